@@ -266,6 +266,7 @@ class MolHeapAdapter:
         if a == "copy":
             i, r, to = act["i"] - 1, act["route"], act["to"]
             src = self.objs[i]
+            before = [snapshot(o) if o is not None else None for o in self.objs]   # deriving must not alter ANY existing object
             try:
                 if r == "construct":
                     dst = getattr(ml, to)(src)
@@ -295,7 +296,14 @@ class MolHeapAdapter:
             self.base.append({c: rn[c] - (inherited.get(c, 0) if isinstance(inherited.get(c, 0), int) and c in CELLS[to] and c in CELLS[self.kinds[i]] else 0)
                               for c in ("coord", "chg", "weight") if c in rn})
             d = compare_copy(src, dst, r)
-            return {"equal": True if not d else "; ".join(d)[:400]}
+            for j, o in enumerate(self.objs[:-1]):
+                if o is not None and before[j] is not None:
+                    after = snapshot(o)
+                    if after != before[j]:
+                        ch = [k for k in after if after[k] != before[j].get(k)]
+                        d.append(f"deriving the new object changed existing object {j + 1} (fields {ch}): "
+                                 f"{str({k: before[j][k] for k in ch})[:150]} -> {str({k: after[k] for k in ch})[:150]}")
+            return {"equal": True if not d else "; ".join(d)[:500]}
         if a == "mutate":
             i = act["i"] - 1
             before = [snapshot(o) if o is not None else None for o in self.objs]
